@@ -866,7 +866,7 @@ func TestVerif_C38(t *testing.T) {
 	}
 	// scripts: sequential per fixture (they delete files from the repository), several fixtures in parallel
 	var wg sync.WaitGroup
-	workers := kit.Pick(1, 4)
+	workers := kit.Pick(2, 4)
 	for w := 0; w < workers; w++ {
 		wg.Add(1)
 		go func(w int) {
